@@ -657,7 +657,7 @@ def s_count(ex, st, s):
     def mk():
         v = ex.fresh_int("usize", "count_" + s.id)
         st.pc.append(v >= 0)
-        st.pc.append(v <= 2 ** 40)
+        st.pc.append(v <= 2 ** 32 - 1)   # stated bound: strings shorter than 2^32 chars
         return v
     return sattr(ex, st, s, "count", mk)
 
